@@ -80,6 +80,13 @@ def run(case: dict, ctx) -> dict:
             holes=rng.choice([0, 0, 1, 3]), tag=rng.getrandbits(48),
         )
     small = sf.end <= (8 << 20)
+    tri = 0
+    if small and case["k"] != "parent" and case.get("i", 0) % 3 == 0:
+        from vf.diskcheck import triangulate
+        from vf.refreaders import RefVDI
+
+        triangulate(rng, RefVDI(sf.to_bytes()), Model(meta["size"], [layer]), "vdi")
+        tri = 1
     fh = as_handle(sf.to_bytes() if small else sf)
     res = {"cnt": {}, "viol": [], "sets": {}}
     from dissect.hypervisor.disk.vdi import VDI
@@ -104,6 +111,7 @@ def run(case: dict, ctx) -> dict:
         res["viol"].append({"what": "size mismatch", "mech": MECH, "detail": {"got": v.size, "exp": meta["size"]}})
     reqs, exhaustive = gen_requests(rng, meta["size"], [bs], n_random=40 if ctx.tier == "quick" else 120)
     compare_reads(v, model, reqs, res, MECH)
+    res["cnt"]["writer_triangulations"] = tri
     res["cnt"]["multi_block_requests"] = crossing_count(reqs, bs)
     res["cnt"]["midblock_starts"] = sum(1 for o_, _ in reqs if o_ % bs)
     res["cnt"]["exhaustive_request_cases"] = int(exhaustive)
